@@ -135,7 +135,7 @@ theorem dictRev_eq (s : SubJ K) (n : Nat) (vals : List K) (dres : Nat → K) (c 
         by_cases hc : s.col0 + mapCol s.src j = c <;> by_cases hj : j = t.1.2
         · subst hj; simp [hc, hadd]
         · have hj' : ¬ t.1.2 = j := fun e => hj e.symm
-          simp [hc, hj, hj', hadd, h0]
+          simp [hc, hj, hj']
         · subst hj; simp [hc]
         · simp [hc, hj]
       rw [hsplit, List.sum_map_add, sum_range_single]
@@ -183,7 +183,7 @@ theorem mulVec_of_dense (T : List (Pos × K)) (n : Nat) (hT : ∀ t ∈ T, t.1.2
       congr 1
       by_cases h1 : t.1.1 = r <;> by_cases h2 : c = t.1.2
       · have : t.1 = (r, c) := Prod.ext h1 h2.symm
-        simp [this, h1]
+        simp [this]
       · have : ¬ t.1 = (r, c) := fun e => h2 (by rw [e])
         simp [this, h2]
       · have : ¬ t.1 = (r, c) := fun e => h1 (by rw [e])
@@ -208,7 +208,7 @@ theorem mulVecT_of_dense (T : List (Pos × K)) (m : Nat) (hT : ∀ t ∈ T, t.1.
       congr 1
       by_cases h1 : t.1.2 = c <;> by_cases h2 : r = t.1.1
       · have : t.1 = (r, c) := Prod.ext h2.symm h1
-        simp [this, h1]
+        simp [this]
       · have : ¬ t.1 = (r, c) := fun e => h2 (by rw [e])
         simp [this, h2]
       · have : ¬ t.1 = (r, c) := fun e => h1 (by rw [e])
